@@ -174,7 +174,7 @@ type ATOrd struct {
 type ATStmt struct {
 	Kind byte // U D X Y(upsert)
 	// AutoForm: how an INSERT into a table with an AUTO_INCREMENT key leaves the key to the database:
-	// 'o' column omitted, 'n' NULL, 'd' DEFAULT (0: the key is given)
+	// 'o' column omitted, 'n' NULL, 'd' DEFAULT, 'z' the literal 0 (0: the key is given)
 	AutoForm byte
 	// ORDER BY … LIMIT of an UPDATE / DELETE (none when both are zero); tokens W / K
 	Order  []ATOrd
@@ -490,6 +490,9 @@ func (s *ATStmt) Render(sc *ATSchema) (string, []interface{}, string) {
 						o.sb.WriteString("NULL")
 					case 'd':
 						o.sb.WriteString("DEFAULT")
+					case 'z':
+						// without NO_AUTO_VALUE_ON_ZERO a 0 asks for the next value just as NULL does
+						o.sb.WriteString("0")
 					default:
 						continue
 					}
@@ -930,7 +933,7 @@ func genInsert(r *Rng, sc *ATSchema, taken map[string]bool, o ATGenOpts) *ATStmt
 	}
 	useArgs := r.Chance(60)
 	if sc.Auto && r.Chance(70) {
-		st.AutoForm = []byte{'o', 'n', 'o', 'n', 'o', 'n', 'd'}[r.Intn(7)]
+		st.AutoForm = []byte{'o', 'n', 'o', 'n', 'o', 'n', 'd', 'z'}[r.Intn(8)]
 	}
 	for i := 0; i < n; i++ {
 		var row []ATVal
